@@ -324,46 +324,12 @@ func runCheck(root string, args []string) int {
 		}
 	}
 	// thorough tier: bounded validation of the trusted reward-arithmetic contracts on the real code (C12, C13)
-	if (prop == "C12" || prop == "C13") && tier == "thorough" {
-		res := runBoundedTest(root, vd, "bounded/zz_bounded_rewards_test.go", "x/alliance/keeper/tests", "TestBoundedRewardArithmetic", seed)
-		var unknownFacts, knownFacts []string
-		for _, fct := range res.failed {
-			name := "bounded:reward-arithmetic:" + fct
-			if kf := isKnown(name); kf != nil {
-				knownFacts = append(knownFacts, fct)
-				knownHit = append(knownHit, name)
-				fmt.Printf("KNOWN-FINDING: property=%s %s: %s\n", prop, name, kf.What)
-			} else {
-				unknownFacts = append(unknownFacts, fct)
-			}
-		}
-		bounded = append(bounded, map[string]interface{}{
-			"name": "bounded:reward-arithmetic (bounded/zz_bounded_rewards_test.go on the real AddAssetsToRewardPool / CalculateDelegationRewards / ClaimDelegationRewards)",
-			"bound": "48 scenarios: 1,2,3,5 delegators x 3 reward weights x 4 reward amounts (1 .. 1e12), stakes 1 .. 1e24 base units, two assets, two reward denoms, seeded claim order; facts: indices_only_grow, claims_never_exceed_the_deposit, claims_covered_up_to_index_rounding, second_claim_pays_nothing, position_settled_after_claim",
-			"status": res.status, "seconds": res.secs, "failed_facts": res.failed, "known_failed_facts": knownFacts,
-		})
-		if len(unknownFacts) > 0 || (res.status != "passed" && res.status != "failed") {
-			violations++
-			dir := filepath.Join(vd, "replays", prop)
-			os.MkdirAll(dir, 0o755)
-			path := filepath.Join(dir, "bounded_reward_arithmetic.json")
-			jsonOut(path, map[string]interface{}{"property": prop, "obligation": "bounded:reward-arithmetic", "replayed": len(unknownFacts) > 0,
-				"reason": "the real reward functions violate a fact the trusted reward contracts state; the failing inputs are in the output", "failed_facts": unknownFacts, "status": res.status, "output": res.out})
-			line := fmt.Sprintf("VIOLATION property=%s replay=%s obligation=bounded:reward-arithmetic (%s)", prop, path, strings.Join(unknownFacts, ","))
-			if len(unknownFacts) == 0 {
-				line = fmt.Sprintf("VIOLATION property=%s replay=%s obligation=bounded:reward-arithmetic (could not be run on the current source: %s) no-failing-input-found", prop, path, res.status)
-			}
-			vioLines = append(vioLines, line)
-		}
-	}
-	// thorough tier: bounded stand-in for the numeric rebalance target and the net-supply closed form (C10, C11)
-	if rebFacts := map[string][]string{
-		"C10": {"bonded_validators_at_target", "unbonded_validators_not_adjusted", "end_of_block_succeeds"},
-		"C11": {"module_holds_no_staking_denom", "net_supply_unchanged", "no_user_receives_staking_denom"},
-		"C17": {"end_of_block_succeeds"},
-	}[prop]; rebFacts != nil && tier == "thorough" {
-		runBoundedSuite(root, vd, prop, seed, "rebalance", "bounded/zz_bounded_rebalance_test.go", "TestBoundedRebalance", rebFacts,
-			"10 seeded random histories x 14 blocks, 3 bonded validators with native stake, 3 users, two assets (one starts 5 minutes later), alliance and native (un)delegations, weight changes, jail/unjail; each block ends with the staking validator-set update and the real EndBlocker",
+	if rwFacts := map[string][]string{
+		"C12": {"indices_only_grow", "claims_never_exceed_the_deposit", "claims_covered_up_to_index_rounding", "second_claim_pays_nothing", "position_settled_after_claim"},
+		"C13": {"claims_never_exceed_the_deposit", "claims_covered_up_to_index_rounding", "second_claim_pays_nothing", "position_settled_after_claim", "payouts_pro_rata_within_an_asset", "rewards_split_between_assets_by_weight"},
+	}[prop]; rwFacts != nil && tier == "thorough" {
+		runBoundedSuite(root, vd, prop, seed, "reward-arithmetic", "bounded/zz_bounded_rewards_test.go", "TestBoundedRewardArithmetic", rwFacts,
+			"48 scenarios: 1,2,3,5 delegators x 3 reward weights x 4 reward amounts (1 .. 1e12), stakes 1 .. 1e24 base units, two assets, two reward denoms, seeded claim order",
 			isKnown, &knownHit, &bounded, &violations, &vioLines)
 	}
 	// thorough tier: bounded comparison of the queries with an independent enumeration (C20)
@@ -404,6 +370,7 @@ func runCheck(root string, args []string) int {
 	// thorough tier: bounded validation of the composed fixed-point behaviour of positions on the real code (C04, C05, C20)
 	if posFacts := map[string][]string{
 		"C04": {"actor_moves_the_amount", "other_positions_unchanged", "values_sum_below_staked_total"},
+		"C06": {"slashed_positions_scaled_by_one_minus_f_times_g", "other_positions_scaled_by_g"},
 		"C05": {"operations_do_not_panic", "anyone_can_enter", "undelegating_the_reported_balance_does_not_panic", "reported_balance_can_be_undelegated", "reported_balance_minus_tolerance_can_be_undelegated"},
 		"C20": {"reported_balance_can_be_undelegated"},
 	}[prop]; posFacts != nil && tier == "thorough" {
